@@ -20,6 +20,20 @@ def _tail(ops, j, with_reopen):
     return tail
 
 
+DEADLINE = None  # set by runner.run_seeds: wall-clock end of the batch
+
+
+def _late(agg):
+    """True once the batch deadline has passed: the sweep of the current
+    seed stops where it is (what was explored stays explored)."""
+    import time
+    if DEADLINE is not None and time.time() > DEADLINE:
+        agg.stats["sweeps-cut-by-deadline"] = \
+            agg.stats.get("sweeps-cut-by-deadline", 0) + 1
+        return True
+    return False
+
+
 def _variant(ops, j, fault, with_reopen):
     head = [copy.deepcopy(o) for o in ops[:j + 1]]
     head[j]["faults"] = [fault]
@@ -60,6 +74,8 @@ def sweep_crash(prop, seed, cfg, ops, tier, agg):
         else:
             chosen = steps
         for s in chosen:
+            if _late(agg):
+                return
             f = {"step": s[0], "mode": "crash"}
             ops2 = _variant(ops, j, f, False)
             r = run_case(prop, cfg, ops2)
@@ -93,6 +109,8 @@ def sweep_ioerror(prop, seed, cfg, ops, tier, agg):
         if tier == "quick":
             cands = _pick(rng, cands, 6)
         for s, mode in cands:
+            if _late(agg):
+                return
             f = {"step": s[0], "mode": mode,
                  "err": rng.choice(["EIO", "ENOSPC"])}
             ops2 = _variant(ops, j, f, True)
@@ -148,6 +166,8 @@ def sweep_collab(prop, seed, cfg, ops, tier, agg):
             ns = range(0, 6) if tier != "quick" else _pick(rng, range(0, 5),
                                                            2)
             for n in ns:
+                if _late(agg):
+                    return
                 head = [copy.deepcopy(o) for o in ops[:j + 1]]
                 head[j]["cfault"] = {"which": which, "n": n,
                                      "kind": rng.choice(["raise", "raise",
@@ -259,6 +279,8 @@ def sweep_index(prop, seed, cfg, ops, tier, agg):
         chosen = _pick(rng, reads, 1 if tier == "quick" else 4) + \
             _pick(rng, others, 2 if tier == "quick" else 6)
         for s in chosen:
+            if _late(agg):
+                return
             f = {"step": s[0], "mode": "pre", "err": "EIO"}
             ops2 = _variant(ops, j, f, False)
             r = run_case(prop, cfg, ops2)
